@@ -12,6 +12,7 @@ import (
 	"net"
 	"sync"
 	"sync/atomic"
+	"syscall"
 	"time"
 
 	rc "verif/harness/refcodec"
@@ -73,6 +74,31 @@ type Server struct {
 	Refuse int32
 	// TLS, when set, makes the server speak TLS on every accepted connection.
 	TLS *tls.Config
+	// hold releases the placeholder socket that keeps the port while the server is "down"
+	hold func()
+}
+
+// holdPort binds (without listening) a socket to addr: connection attempts are refused as
+// with no socket at all, but no other process can be given the port meanwhile - a scripted
+// server of another test process answering on a reused port would turn "refused" into
+// "answered".
+func holdPort(addr string) func() {
+	ta, err := net.ResolveTCPAddr("tcp", addr)
+	if err != nil || ta.IP.To4() == nil {
+		return nil
+	}
+	fd, err := syscall.Socket(syscall.AF_INET, syscall.SOCK_STREAM, 0)
+	if err != nil {
+		return nil
+	}
+	_ = syscall.SetsockoptInt(fd, syscall.SOL_SOCKET, syscall.SO_REUSEADDR, 1)
+	sa := &syscall.SockaddrInet4{Port: ta.Port}
+	copy(sa.Addr[:], ta.IP.To4())
+	if err := syscall.Bind(fd, sa); err != nil {
+		syscall.Close(fd)
+		return nil
+	}
+	return func() { syscall.Close(fd) }
 }
 
 func Listen(host string) (*Server, error) { return ListenTLS(host, nil) }
@@ -93,6 +119,12 @@ func ListenTLS(host string, cfg *tls.Config) (*Server, error) {
 
 // Relisten re-opens the listener on the same port (server restart).
 func (s *Server) Relisten() error {
+	s.mu.Lock()
+	if s.hold != nil {
+		s.hold()
+		s.hold = nil
+	}
+	s.mu.Unlock()
 	l, err := net.Listen("tcp", s.Addr)
 	if err != nil {
 		return err
@@ -310,10 +342,23 @@ func (s *Server) StopListening() {
 	l := s.L
 	s.mu.Unlock()
 	l.Close()
+	h := holdPort(s.Addr)
+	s.mu.Lock()
+	if s.hold != nil {
+		s.hold()
+	}
+	s.hold = h
+	s.mu.Unlock()
 }
 
 func (s *Server) Shutdown() {
 	s.StopListening()
+	s.mu.Lock()
+	if s.hold != nil {
+		s.hold()
+		s.hold = nil
+	}
+	s.mu.Unlock()
 	s.CloseAllConns()
 }
 
